@@ -159,6 +159,44 @@ def rel(fn, e, pol, is_a, is_b):
     return None
 
 
+def counted_loops(fn):
+    """loops that count a local up by one: dict(loop, var, first, op, bound, body) for `for (T i = first; i OP bound; i++)`
+    and for the same loop written with while (initialisation before the loop, increment at the end of the body).
+    `first` is the initial value node (or None when it is not a single reaching definition), op is < or <= in the
+    orientation `var op bound`."""
+    out = []
+    cfg = fn.cfg
+    for L in fn.loops():
+        if L["cond"] is None:
+            continue
+        stmts = [x for x in (L["body"], L["inc"]) if x is not None]
+        inside = set()
+        for s_ in stmts:
+            inside.update(fn.walk(s_))
+        for e, pol in facts_of(fn, L["cond"], True):
+            c = norm_cmp(fn, e, pol)
+            if c is None:
+                continue
+            for (a, b, op) in ((c[1], c[2], c[0]), (c[2], c[1], SWAP[c[0]])):
+                d = var_of(fn, a)
+                if d is None or op not in ("<", "<="):
+                    continue
+                ups = [(x, k, o) for x, k, o in fn.var_updates(d) if x in inside]
+                if len(ups) != 1 or ups[0][1] != "add" or ups[0][2] != 1:
+                    continue
+                first = None
+                if L["init"] is not None and fn.nodes[L["init"]]["k"] == "DeclStmt":
+                    for dd in fn.nodes[L["init"]]["decls"]:
+                        if dd["d"] == d and "init" in dd:
+                            first = dd["init"]
+                if first is None:
+                    defs = [rhs for x, rhs, o in reaching_defs(fn, d, L["node"]) if x not in inside]
+                    if len(defs) == 1:
+                        first = defs[0]
+                out.append(dict(loop=L["node"], var=d, first=first, op=op, bound=b, body=L["body"]))
+    return out
+
+
 def facts_of(fn, e, pol=True):
     """atomic (expr, polarity) facts implied by expression e having truth value pol: a true conjunction makes every
     conjunct true, a false disjunction every disjunct false, `!` flips (the expression-level twin of CFG.facts)"""
